@@ -50,7 +50,7 @@ def all_ops():
         ops += [("create", p), ("delete", p), ("mkdir", p), ("rmdir", p, False), ("rmdir", p, True), ("trunc", p), ("size", p), ("exists", p), ("isdir", p)]
         for off in (None, 0, 2, 7):
             ops.append(("write", p, off))
-        for off, ln in ((None, None), (0, 2), (2, 100), (50, 2)):
+        for off, ln in ((None, None), (0, 2), (2, 100), (50, 2), (0, 0), (2, 0), (None, 3), (1, None)):
             ops.append(("read", p, off, ln))
         for q in NAMES:
             ops += [("rename", p, q), ("replace", p, q)]
